@@ -12,7 +12,7 @@ VARIABLE l
 tv == <<vars, l>>
 
 PropOf(o) ==
-  [id |-> o.id, status |-> o.status, expires |-> o.expires,
+  [id |-> o.id, status |-> o.status, lstatus |-> o.lstatus, rstatus |-> o.rstatus, ltotal |-> o.ltotal, rtotal |-> o.rtotal, expires |-> o.expires,
    thr |-> [kind |-> o.thr.kind, weight |-> o.thr.weight, p |-> o.thr.p, q |-> o.thr.q],
    total |-> o.thr.total, proposer |-> o.proposer, msgs |-> o.msgs, title |-> o.title, dep |-> o.dep,
    ballots |-> [a \in Addr |->
